@@ -57,10 +57,16 @@ type c10Sort struct {
 // rows, for the master schema), "writerows" (WriteRows of parquet.Row values),
 // "sort" (sort.Sort), "read" (read all rows through Rows()), "flush"
 // (SortingWriter.Flush), "close" (SortingWriter.Close: ends an output file),
-// "reset" (SortingWriter.Reset with a new output: the writer is reused).
+// "reset" (SortingWriter.Reset with a new output: the writer is reused), "cols"
+// (buffers only: every leaf column is read through a view of the column-level
+// API, see views.go).
 type c10Step struct {
 	Op   string      `json:"op"`
 	Rows [][]c10Cell `json:"rows,omitempty"`
+	// "cols" (views.go): the view each leaf column is read through (clone | page | pages | chunk |
+	// readat) and the length of the destinations of ReadValuesAt
+	Views []string `json:"views,omitempty"`
+	Chunk int      `json:"chunk,omitempty"`
 }
 
 type c10Case struct {
@@ -75,6 +81,9 @@ type c10Case struct {
 	Dedupe     bool   `json:"dedupe,omitempty"`
 	Pool       string `json:"pool,omitempty"` // "", "chunk", "file", "mem"
 	MaxRowsRG  int    `json:"max_rows_per_row_group,omitempty"`
+	// Reuse: the caller overwrites the memory of every batch once the Write / WriteRows call it was
+	// handed to has returned (views.go)
+	Reuse bool `json:"reuse,omitempty"`
 }
 
 type c10Grp struct {
@@ -717,7 +726,7 @@ func c10CheckBuffer(c *core.Ctx, cs *c10Case) (obs []c10Obs, ok bool) {
 	cols := cs.Cols
 	sorting := c10SortingColumns(cs)
 	var buf c10Buf
-	var typedWrite func(rows [][]c10Cell) error
+	var typedWrite func(rows [][]c10Cell, reuse bool) error
 	var schema *parquet.Schema
 	typedTok := "W"
 	toStructs := func(rows [][]c10Cell) []c10RowT {
@@ -744,24 +753,41 @@ func c10CheckBuffer(c *core.Ctx, cs *c10Case) (obs []c10Obs, ok bool) {
 		case "generic":
 			b := parquet.NewGenericBuffer[c10RowT](opt)
 			buf, schema = b, b.Schema()
-			typedWrite = func(rows [][]c10Cell) error { _, err := b.Write(toStructs(rows)); return err }
+			typedWrite = func(rows [][]c10Cell, reuse bool) error {
+				rs := toStructs(rows)
+				_, err := b.Write(rs)
+				if reuse {
+					c10ClobberStructs(rs)
+				}
+				return err
+			}
 			typedTok = "T"
 		case "repeated":
 			b := parquet.NewGenericBuffer[c10RepT](opt)
 			buf, schema = b, b.Schema()
-			typedWrite = func(rows [][]c10Cell) error {
+			typedWrite = func(rows [][]c10Cell, reuse bool) error {
 				rs := make([]c10RepT, len(rows))
 				for i := range rows {
 					rs[i] = c10ToRepStruct(rows[i])
 				}
 				_, err := b.Write(rs)
+				if reuse {
+					c10ClobberStructs(rs)
+				}
 				return err
 			}
 		case "rowbuffer":
 			if cs.Master {
 				b := parquet.NewRowBuffer[c10RowT](opt)
 				buf, schema = b, b.Schema()
-				typedWrite = func(rows [][]c10Cell) error { _, err := b.Write(toStructs(rows)); return err }
+				typedWrite = func(rows [][]c10Cell, reuse bool) error {
+					rs := toStructs(rows)
+					_, err := b.Write(rs)
+					if reuse {
+						c10ClobberStructs(rs)
+					}
+					return err
+				}
 			} else {
 				schema = c10Schema(cs)
 				b := parquet.NewRowBuffer[any](schema, opt)
@@ -772,11 +798,14 @@ func c10CheckBuffer(c *core.Ctx, cs *c10Case) (obs []c10Obs, ok bool) {
 			b := parquet.NewBuffer(schema, opt)
 			buf = b
 			if cs.Master {
-				typedWrite = func(cells [][]c10Cell) error {
+				typedWrite = func(cells [][]c10Cell, reuse bool) error {
 					rows := toStructs(cells)
 					for i := range rows {
 						if err := b.Write(&rows[i]); err != nil {
 							return err
+						}
+						if reuse {
+							c10ClobberStructs(rows[i : i+1])
 						}
 					}
 					return nil
@@ -818,6 +847,7 @@ func c10CheckBuffer(c *core.Ctx, cs *c10Case) (obs []c10Obs, ok bool) {
 	var ops []string
 	var cur, written [][]c10Cell
 	sortedNow := false
+	var clones []c10ColClone
 
 	// less matrix of the implementation + predicate Less <=> comparator < 0
 	lessMatrix := func(where string) (string, bool) {
@@ -904,13 +934,16 @@ func c10CheckBuffer(c *core.Ctx, cs *c10Case) (obs []c10Obs, ok bool) {
 			var err error
 			msg := c10Guard(func() {
 				if typed {
-					err = typedWrite(st.Rows)
+					err = typedWrite(st.Rows, cs.Reuse)
 				} else {
 					prs := make([]parquet.Row, len(st.Rows))
 					for i := range st.Rows {
 						prs[i] = c10MakeRow(cols, st.Rows[i])
 					}
 					_, err = buf.WriteRows(prs)
+					if cs.Reuse {
+						c10ClobberRows(prs)
+					}
 				}
 			})
 			if msg != "" || err != nil {
@@ -989,6 +1022,123 @@ func c10CheckBuffer(c *core.Ctx, cs *c10Case) (obs []c10Obs, ok bool) {
 			// cur was aliasing the steps' rows: keep it private
 			cur = append([][]c10Cell(nil), cur...)
 			sortedNow = true
+		case "cols":
+			// every leaf column through a view of the column-level API (views.go)
+			if len(st.Views) != len(cols) {
+				return nil, false
+			}
+			colRows := make([][][]parquet.Value, len(cols))
+			used := make([]string, len(cols))
+			for k := range cols {
+				var vals []parquet.Value
+				var clone parquet.ColumnBuffer
+				var err error
+				used[k] = st.Views[k]
+				if msg := c10Guard(func() { vals, clone, used[k], err = c10ViewColumn(buf, k, st.Views[k], st.Chunk) }); msg != "" || err != nil {
+					c.Violation("column-view-failed", fmt.Sprintf("%s: reading column %d (%s) through the view %q failed: %s %v", where, k, cols[k].Name, used[k], msg, err), cs)
+					return nil, false
+				}
+				if clone != nil {
+					clones = append(clones, c10ColClone{col: k, step: si, clone: clone, values: c10ValueKeys(vals)})
+				}
+				colRows[k] = c10CutRows(cols[k], vals)
+				if len(colRows[k]) != len(cur) {
+					c.Violation("column-view-not-the-rows", fmt.Sprintf("%s: column %d (%s) read through the view %q has %d rows (%d values), the buffer holds %d rows", where, k, cols[k].Name, used[k], len(colRows[k]), len(vals), len(cur)), cs)
+					return nil, false
+				}
+				if c10ViewMutates(used[k]) {
+					if repCol < 0 {
+						ops = append(ops, fmt.Sprintf("C%d", k))
+					} else if k == repCol {
+						ops = append(ops, "P")
+					}
+				}
+			}
+			// the rows the columns hold side by side: row i is the row the exchanges put at position i
+			gotCells := make([][]c10Cell, len(cur))
+			for i := range cur {
+				var row parquet.Row
+				for k := range cols {
+					row = append(row, colRows[k][i]...)
+				}
+				want := c10MakeRow(cols, cur[i])
+				cells, good := c10ParseRow(cols, row)
+				if !good || c10Canon(cols, cells) != c10Canon(cols, cur[i]) || len(row) != len(want) {
+					// name the first column that differs
+					at, pos := -1, 0
+					for k := range cols {
+						n := len(colRows[k][i])
+						for x := 0; x < n && at < 0; x++ {
+							if pos+x >= len(want) || c10ValueKey(want[pos+x]) != c10ValueKey(colRows[k][i][x]) {
+								at = k
+							}
+						}
+						pos += n
+					}
+					if at < 0 {
+						at = len(cols) - 1
+					}
+					c.Violation("column-view-not-the-rows", fmt.Sprintf("%s: row %d read through the column views %v is %v but the exchanges performed put the row %s there (written as %v): column %d (%s), view %q",
+						where, i, used, row, c10Canon(cols, cur[i]), want, at, cols[at].Name, used[at]), cs)
+					return nil, false
+				}
+				// the values bit for bit (levels and column index included)
+				for x := range want {
+					if c10ValueKey(want[x]) != c10ValueKey(row[x]) {
+						c.Violation("column-view-not-the-rows", fmt.Sprintf("%s: row %d read through the column views %v: value %d is %s, written as %s", where, i, used, x, c10ValueKey(row[x]), c10ValueKey(want[x])), cs)
+						return nil, false
+					}
+				}
+				gotCells[i] = cells
+			}
+			if sortedNow {
+				for i := 0; i+1 < len(gotCells); i++ {
+					if own, has := c10CmpCells(cols, cs.Sorting, gotCells[i], gotCells[i+1]); has && own > 0 {
+						c.Violation("not-sorted", fmt.Sprintf("%s: after sort.Sort rows %d and %d of the column views are not in the order of the sorting columns: %s then %s; sorting %+v", where, i, i+1, c10Canon(cols, gotCells[i]), c10Canon(cols, gotCells[i+1]), cs.Sorting), cs)
+						ok = false
+						break
+					}
+				}
+			}
+			if len(cur) <= 40 && useModel {
+				if ans := askModel(); len(ans) == nparts {
+					mr := rowsR(gotCells)
+					if ans[1] != mr {
+						c.Mismatch("corr:C10.column-views-page-rows", head+strings.Join(ops, "/"), mr, ans[1], cs)
+						ok = false
+					}
+					if ans[0] != mr {
+						c.Mismatch("corr:C10.column-views-logical-rows", head+strings.Join(ops, "/"), mr, ans[0], cs)
+						ok = false
+					}
+				} else if c.HasOracle() {
+					c.Mismatch("corr:C10.column-views-page-rows", head+strings.Join(ops, "/"), "", strings.Join(ans, "#"), cs)
+					ok = false
+				}
+				// ReadValuesAt against the model of it (c10.readat)
+				mc := c10ModelCols(cols)
+				for k := range mc {
+					if used[k] != "readat" || repCol >= 0 || !c.HasOracle() || len(cur) == 0 {
+						continue
+					}
+					chunk := st.Chunk
+					if chunk < 1 {
+						chunk = 1
+					}
+					// (one window per column: inside the column or reaching past its end, in turn)
+					for _, off := range []int{(chunk + 1) % len(cur), len(cur) - 1 - (chunk/2)%len(cur)}[(k+chunk)%2:][:1] {
+						var toks []string
+						for i := off; i < off+chunk && i < len(cur); i++ {
+							toks = append(toks, c10ModelCellR(mc[k], gotCells[i][k]))
+						}
+						req := fmt.Sprintf("%s%s %d %d %d", strings.Replace(head, "c10.run 0 0 ", "c10.readat ", 1), strings.Join(ops, "/"), k, off, chunk)
+						if ans := c.Ask(req); ans != strings.Join(toks, ";") {
+							c.Mismatch("corr:C10.read-values-at", req, strings.Join(toks, ";"), ans, cs)
+							ok = false
+						}
+					}
+				}
+			}
 		case "read":
 			var got []parquet.Row
 			var err error
@@ -1082,6 +1232,19 @@ func c10CheckBuffer(c *core.Ctx, cs *c10Case) (obs []c10Obs, ok bool) {
 			}
 		}
 	}
+	// the clones taken on the way share no memory with the buffer: they still hold what they held
+	for _, cl := range clones {
+		var vals []parquet.Value
+		var err error
+		if msg := c10Guard(func() { vals, err = c10ReadPage(cl.clone.Page()) }); msg != "" || err != nil {
+			c.Violation("column-view-failed", fmt.Sprintf("reading the clone of column %d (%s) taken at step %d again at the end of the history failed: %s %v", cl.col, cols[cl.col].Name, cl.step, msg, err), cs)
+			return nil, false
+		}
+		if now := c10ValueKeys(vals); strings.Join(now, "\n") != strings.Join(cl.values, "\n") {
+			c.Violation("column-clone-changed", fmt.Sprintf("the clone of column %d (%s) taken at step %d held %v; at the end of the history it holds %v", cl.col, cols[cl.col].Name, cl.step, cl.values, now), cs)
+			return nil, false
+		}
+	}
 	return obs, ok
 }
 
@@ -1136,17 +1299,20 @@ func c10CheckWriter(c *core.Ctx, cs *c10Case) bool {
 		// the writer: over the master struct, over the struct of a kind (typed.go), or over a Group
 		// schema (SortingWriter[any]: rows are written with WriteRows only)
 		var w c10SW
-		var typedWrite func(rows [][]c10Cell) error
+		var typedWrite func(rows [][]c10Cell, reuse bool) error
 		switch {
 		case cs.Master:
 			mw := parquet.NewSortingWriter[c10RowT](out, int64(cs.SortRows), wopts...)
 			w = mw
-			typedWrite = func(rows [][]c10Cell) error {
+			typedWrite = func(rows [][]c10Cell, reuse bool) error {
 				rs := make([]c10RowT, len(rows))
 				for i := range rows {
 					rs[i] = c10ToStruct(rows[i])
 				}
 				_, err := mw.Write(rs)
+				if reuse {
+					c10ClobberStructs(rs)
+				}
 				return err
 			}
 		case cs.Struct != "":
@@ -1170,7 +1336,7 @@ func c10CheckWriter(c *core.Ctx, cs *c10Case) bool {
 			}
 			switch op {
 			case "write":
-				if err := typedWrite(st.Rows); err != nil {
+				if err := typedWrite(st.Rows, cs.Reuse); err != nil {
 					failure = "Write: " + err.Error()
 					return
 				}
@@ -1181,7 +1347,11 @@ func c10CheckWriter(c *core.Ctx, cs *c10Case) bool {
 				for i := range st.Rows {
 					prs[i] = c10MakeRow(cols, st.Rows[i])
 				}
-				if _, err := w.WriteRows(prs); err != nil {
+				_, err := w.WriteRows(prs)
+				if cs.Reuse {
+					c10ClobberRows(prs)
+				}
+				if err != nil {
 					failure = "WriteRows: " + err.Error()
 					return
 				}
@@ -1605,6 +1775,9 @@ func c10Valid(cs *c10Case) bool {
 		if (st.Op == "close" || st.Op == "reset") && cs.Kind != "writer" {
 			return false
 		}
+		if st.Op == "cols" && (cs.Kind == "writer" || len(st.Views) != len(cs.Cols)) {
+			return false
+		}
 	}
 	return true
 }
@@ -1614,7 +1787,7 @@ func c10Clone(cs *c10Case) *c10Case {
 	t.Sorting = append([]c10Sort(nil), cs.Sorting...)
 	t.Steps = make([]c10Step, len(cs.Steps))
 	for i, st := range cs.Steps {
-		t.Steps[i] = c10Step{Op: st.Op, Rows: append([][]c10Cell(nil), st.Rows...)}
+		t.Steps[i] = c10Step{Op: st.Op, Rows: append([][]c10Cell(nil), st.Rows...), Views: st.Views, Chunk: st.Chunk}
 	}
 	return &t
 }
@@ -1652,6 +1825,34 @@ func c10Shrink(c *core.Ctx, cs *c10Case) *c10Case {
 		for i := len(cur.Sorting) - 1; i >= 0 && !changed && len(cur.Sorting) > 1; i-- {
 			t := c10Clone(cur)
 			t.Sorting = append(t.Sorting[:i], t.Sorting[i+1:]...)
+			if fails(t) {
+				cur, changed = t, true
+			}
+		}
+		// column views: the view that does not touch the buffer, then a destination of one value
+		for i := range cur.Steps {
+			for k := range cur.Steps[i].Views {
+				if changed || cur.Steps[i].Views[k] == "clone" || cur.Kind == "rowbuffer" {
+					continue
+				}
+				t := c10Clone(cur)
+				t.Steps[i].Views = append([]string(nil), t.Steps[i].Views...)
+				t.Steps[i].Views[k] = "clone"
+				if fails(t) {
+					cur, changed = t, true
+				}
+			}
+			if !changed && cur.Steps[i].Op == "cols" && cur.Steps[i].Chunk > 1 {
+				t := c10Clone(cur)
+				t.Steps[i].Chunk = 1
+				if fails(t) {
+					cur, changed = t, true
+				}
+			}
+		}
+		if !changed && cur.Reuse {
+			t := c10Clone(cur)
+			t.Reuse = false
 			if fails(t) {
 				cur, changed = t, true
 			}
@@ -1858,6 +2059,44 @@ func c10GenCols(c *core.Ctx) []c10Col {
 	return cols
 }
 
+// c10GenColsStep: a "cols" step for the case: three times in five all columns through the same view,
+// else a view drawn per column (a buffer of which only some columns were materialised).
+func c10GenColsStep(c *core.Ctx, cs *c10Case) c10Step {
+	views := make([]string, len(cs.Cols))
+	same := c10ViewNames[c.Rng.Intn(len(c10ViewNames))]
+	each := c.Rng.Intn(5) >= 3
+	for k := range views {
+		switch {
+		case cs.Kind == "rowbuffer":
+			views[k] = "chunk"
+		case each:
+			views[k] = c10ViewNames[c.Rng.Intn(len(c10ViewNames))]
+		default:
+			views[k] = same
+		}
+	}
+	return c10Step{Op: "cols", Views: views, Chunk: 1 + c.Rng.Intn(9)}
+}
+
+// c10WithCols inserts "cols" steps into a history: after a sort.Sort (before the rows are read: the
+// columns of a buffer whose values are not yet in row order), now and then also before it and after a read.
+func c10WithCols(c *core.Ctx, cs *c10Case, steps []c10Step, p int) []c10Step {
+	var out []c10Step
+	for i, st := range steps {
+		out = append(out, st)
+		switch {
+		case st.Op == "sort" && (i+1 == len(steps) || steps[i+1].Op != "sort") && c.Rng.Intn(100) < p:
+			out = append(out, c10GenColsStep(c, cs))
+			if c.Rng.Intn(4) == 0 {
+				out = append(out, c10GenColsStep(c, cs))
+			}
+		case (st.Op == "write" || st.Op == "writerows" || st.Op == "read") && c.Rng.Intn(100) < p/4:
+			out = append(out, c10GenColsStep(c, cs))
+		}
+	}
+	return out
+}
+
 // c10GenHistory: write; sort; read; write more; sort; read ... with at most max rows.
 func c10GenHistory(c *core.Ctx, g *c10Gen, max int, typedOK bool) []c10Step {
 	var steps []c10Step
@@ -1935,6 +2174,7 @@ func c10GenReuse(c *core.Ctx) *c10Case {
 	cs.Sorting = []c10Sort{{Col: col, Desc: c.Rng.Intn(2) == 0, NullsFirst: c.Rng.Intn(2) == 0}}
 	cs.SortRows = 1 + c.Rng.Intn(6)
 	cs.Pool = []string{"", "", "chunk", "mem"}[c.Rng.Intn(4)]
+	cs.Reuse = c.Rng.Intn(2) == 0
 	sign := int64(1)
 	if cs.Sorting[0].Desc {
 		sign = -1
@@ -2023,6 +2263,8 @@ func c10CoqOps(cols []c10Col, ops string) string {
 		case 'S':
 			ij := strings.Split(o[1:], ":")
 			out = append(out, fmt.Sprintf("OSwap %s %s", ij[0], ij[1]))
+		case 'C':
+			out = append(out, "OPageCol "+o[1:])
 		default:
 			typed := "false"
 			if o[0] == 'T' {
@@ -2162,7 +2404,7 @@ Definition agrees (c : case) : bool :=
 // ---------------------------------------------------------------------------
 
 func runC10(c *core.Ctx) {
-	c.Res.Rule = "histories (write | writerows)* ; sort ; read ; write more ; sort ; read ... on parquet.NewGenericBuffer[T] (typed column writes), parquet.NewBuffer (dynamic Group schemas, WriteRows / Write), parquet.NewRowBuffer, and parquet.NewSortingWriter (sort-run sizes 1..N, buffer pools, DropDuplicatedRows, MaxRowsPerRowGroup; histories (write | writerows | flush)* close, one writer reused for 2-3 files through Reset, files abandoned by Reset; generated so that a file's smallest key is the previous file's greatest key and occurs once, in its first sort run) with every output file read back and checked against the rows written to it (sorted by Schema.Comparator, permutation; DropDuplicatedRows: one row per key, every key written kept) and against the model of the writer (c10.sw, Sort/Writer.v: same number of rows per file, at every position a row of the model's key, the same rows without DropDuplicatedRows). Schemas: a master struct (required/optional int64 and string columns, a dictionary column, an optional group with a nested optional leaf of max definition level 2, a repeated payload) and generated Group schemas; 1-3 sorting columns, asc/desc x nulls first/last; values from a small domain (duplicates), null/non-null runs of length 1..20 per column. Kinds of sorting columns (types.go): boolean, INT32/INT64 without logical type, INT(8|16|32|64) signed and unsigned, FLOAT, DOUBLE (negative values, +0 and -0, no NaN), BYTE_ARRAY, STRING, ENUM, FIXED_LEN_BYTE_ARRAY(5|16), UUID, DATE, TIME(ms|us|ns), TIMESTAMP(ms|us|ns), DECIMAL on INT32 / INT64 / FIXED_LEN_BYTE_ARRAY(9|16) / BYTE_ARRAY: the cells of such a column are integers (what the model compares) and the column holds their images under a strictly increasing embedding into the values of the type, spread over its whole width (both signs, both halves of the unsigned range, both ends of the domain so that differences overflow the width; checked exhaustively against the harness's comparator at the start of the run); every kind x {Buffer, RowBuffer, SortingWriter[any] over a Group schema, GenericBuffer[T], RowBuffer[T], SortingWriter[T] over a Go struct with fields of the kind (typed.go)} x {required ascending, required descending (no repeated leaf and no optional sorting column: the index fast path of Schema.Comparator), optional ascending/descending x nulls first/last + required}, and as columns of the generated Group schemas (one in three without a repeated leaf) of the random histories. Ordered is decided by the harness's own comparator on the decoded Go values (c10CmpCells: Less(i,j) for all pairs, Schema.Comparator's sign for all pairs, adjacent rows after sort.Sort and of every SortingWriter file, duplicate keys), not by the library's compare functions; the agreement of Less with Schema.Comparator is checked besides. Every swap sort.Sort performs is recorded and replayed in the model. Sorting by repeated columns (a []int64 column and a repeated group's optional leaf with null elements) runs the same histories on GenericBuffer against the model of repeatedColumnBuffer (logical rows, rows after Page, Less matrix == model's Less and == the proved comparator < 0, comparator matrix). A case is one history; non-trivial = at least 2 rows and a sort; distinct by the JSON of the case."
+	c.Res.Rule = "histories (write | writerows)* ; sort ; read ; write more ; sort ; read ... on parquet.NewGenericBuffer[T] (typed column writes), parquet.NewBuffer (dynamic Group schemas, WriteRows / Write), parquet.NewRowBuffer, and parquet.NewSortingWriter (sort-run sizes 1..N, buffer pools, DropDuplicatedRows, MaxRowsPerRowGroup; histories (write | writerows | flush)* close, one writer reused for 2-3 files through Reset, files abandoned by Reset; generated so that a file's smallest key is the previous file's greatest key and occurs once, in its first sort run) with every output file read back and checked against the rows written to it (sorted by Schema.Comparator, permutation; DropDuplicatedRows: one row per key, every key written kept) and against the model of the writer (c10.sw, Sort/Writer.v: same number of rows per file, at every position a row of the model's key, the same rows without DropDuplicatedRows). Schemas: a master struct (required/optional int64 and string columns, a dictionary column, an optional group with a nested optional leaf of max definition level 2, a repeated payload) and generated Group schemas; 1-3 sorting columns, asc/desc x nulls first/last; values from a small domain (duplicates), null/non-null runs of length 1..20 per column. Kinds of sorting columns (types.go): boolean, INT32/INT64 without logical type, INT(8|16|32|64) signed and unsigned, FLOAT, DOUBLE (negative values, +0 and -0, no NaN), BYTE_ARRAY, STRING, ENUM, FIXED_LEN_BYTE_ARRAY(5|16), UUID, DATE, TIME(ms|us|ns), TIMESTAMP(ms|us|ns), DECIMAL on INT32 / INT64 / FIXED_LEN_BYTE_ARRAY(9|16) / BYTE_ARRAY: the cells of such a column are integers (what the model compares) and the column holds their images under a strictly increasing embedding into the values of the type, spread over its whole width (both signs, both halves of the unsigned range, both ends of the domain so that differences overflow the width; checked exhaustively against the harness's comparator at the start of the run); every kind x {Buffer, RowBuffer, SortingWriter[any] over a Group schema, GenericBuffer[T], RowBuffer[T], SortingWriter[T] over a Go struct with fields of the kind (typed.go)} x {required ascending, required descending (no repeated leaf and no optional sorting column: the index fast path of Schema.Comparator), optional ascending/descending x nulls first/last + required}, and as columns of the generated Group schemas (one in three without a repeated leaf) of the random histories. Ordered is decided by the harness's own comparator on the decoded Go values (c10CmpCells: Less(i,j) for all pairs, Schema.Comparator's sign for all pairs, adjacent rows after sort.Sort and of every SortingWriter file, duplicate keys), not by the library's compare functions; the agreement of Less with Schema.Comparator is checked besides. Every swap sort.Sort performs is recorded and replayed in the model. Sorting by repeated columns (a []int64 column and a repeated group's optional leaf with null elements) runs the same histories on GenericBuffer against the model of repeatedColumnBuffer (logical rows, rows after Page, Less matrix == model's Less and == the proved comparator < 0, comparator matrix). Column views (views.go; step cols, drawn after 40% of the sorts (25% in the grid), before the rows are read, and after some writes and reads): every leaf column of a GenericBuffer / Buffer through one of ColumnBuffers()[k].Clone().Page() | Page() | Pages() | ColumnChunks()[k].Pages() | ReadValuesAt (destinations of 1..9 values walked over the column, windows at other offsets, past the end), all columns through the same view or a view per column (only some columns materialised: the model's OPageCol), a RowBuffer through ColumnChunks()[k].Pages(); the values cut into rows and put side by side must be the rows the recorded exchanges put at each position, bit for bit (levels and column index included), sorted after a sort; against the model: logical rows, page rows, and c10.readat for a window of each column read with ReadValuesAt (inside the column or reaching past its end); every clone is read again at the end of the history. Caller reuse (case flag reuse, half of the generated cases of every section and container): once a Write / WriteRows call returned, the harness overwrites all the memory it handed in (parquet.Row values and the bytes their BYTE_ARRAY / FIXED_LEN_BYTE_ARRAY values point to; the Go structs: integers, floats, arrays, byte slices, pointees, slice elements). A case is one history; non-trivial = at least 2 rows and a sort; distinct by the JSON of the case."
 	var vm []string
 	addVm := func(cs *c10Case, obs []c10Obs) {
 		for _, o := range obs {
@@ -2244,6 +2486,8 @@ func runC10(c *core.Ctx) {
 						n := 4 + c.Rng.Intn(30)
 						cs.Steps = []c10Step{{Op: "write", Rows: g.batch(n)}, {Op: "sort"}, {Op: "read"},
 							{Op: "write", Rows: g.batch(1 + c.Rng.Intn(40-n))}, {Op: "sort"}, {Op: "read"}}
+						cs.Reuse = c.Rng.Intn(2) == 0
+						cs.Steps = c10WithCols(c, cs, cs.Steps, 25)
 						obs, _ := c10Run(c, cs, fmt.Sprintf("grid/%s", kind))
 						if runLen == 8 && kind == "generic" {
 							addVm(cs, obs)
@@ -2284,6 +2528,7 @@ func runC10(c *core.Ctx) {
 					if g.maxRun > 9 {
 						g.maxRun = 9
 					}
+					cs.Reuse = c.Rng.Intn(2) == 0
 					if ct.kind == "writer" {
 						cs.SortRows = 2 + c.Rng.Intn(6)
 						cs.Dedupe = c.Rng.Intn(3) == 0
@@ -2294,6 +2539,7 @@ func runC10(c *core.Ctx) {
 						n := 6 + c.Rng.Intn(10)
 						cs.Steps = []c10Step{{Op: "write", Rows: g.batch(n)}, {Op: "sort"}, {Op: "read"},
 							{Op: "writerows", Rows: g.batch(1 + c.Rng.Intn(6))}, {Op: "sort"}, {Op: "read"}}
+						cs.Steps = c10WithCols(c, cs, cs.Steps, 40)
 					}
 					name := ct.kind
 					if ct.strct != "" {
@@ -2341,6 +2587,8 @@ func runC10(c *core.Ctx) {
 			max = 120 // beyond the matrix limit: predicates only
 		}
 		cs.Steps = c10GenHistory(c, g, max, cs.Master || cs.Struct != "")
+		cs.Reuse = c.Rng.Intn(2) == 0
+		cs.Steps = c10WithCols(c, cs, cs.Steps, 40)
 		obs, _ := c10Run(c, cs, "random/"+cs.Kind)
 		if i%9 == 0 {
 			addVm(cs, obs)
@@ -2368,6 +2616,7 @@ func runC10(c *core.Ctx) {
 			cs.SortRows = 1 + c.Rng.Intn(80)
 		}
 		cs.Dedupe = c.Rng.Intn(2) == 0
+		cs.Reuse = c.Rng.Intn(2) == 0
 		cs.Pool = []string{"", "", "chunk", "mem", "file"}[c.Rng.Intn(5)]
 		if cs.Pool == "file" && c.Rng.Intn(4) != 0 {
 			cs.Pool = "chunk"
@@ -2461,6 +2710,8 @@ func runC10(c *core.Ctx) {
 		g := c10NewGen(c, cs.Cols)
 		g.dom = 1 + c.Rng.Intn(2)
 		cs.Steps = c10GenHistory(c, g, 30, true)
+		cs.Reuse = c.Rng.Intn(2) == 0
+		cs.Steps = c10WithCols(c, cs, cs.Steps, 40)
 		c10Run(c, cs, fmt.Sprintf("repeated-sorting-column/%d", len(cs.Sorting)))
 		if i == 0 {
 			c.Sample(cs)
